@@ -168,6 +168,7 @@ def events_B():
         if TYPES[n][1] != 'comma':        # saving an edited comma list is C10's known finding
             out.append(('edit', n))
     out.append(('save',))
+    out.append(('save-refused',))          # Tor answers the SETCONF 513: the edits stay pending
     for n in ('LineOpt', 'SocksPort'):
         out.append(('assign-same', n))          # X = list(X): a whole-list assignment whose content equals the current view
     # one event announcing two options: a list option first, every other option second
@@ -300,6 +301,20 @@ class RunB(object):
                 return
             self.dirty.add(name)
             return
+        elif ev[0] == 'save-refused':
+            if not self.dirty:
+                self.skip = True
+                return
+            sim.override('SETCONF', (513, [('line', 'Unacceptable option value: refused by the harness')]))
+            d = cfg.save()
+            d.addErrback(lambda f: None)
+            sim.pump()
+            sim.overrides[:] = []
+            self.refused = True
+            # (save() has made what it sent the view: from here on an assigned list is "the list in the view, edited", and an
+            # announcement by Tor replaces it like any other - what becomes of the refused value then is not stated)
+            self.assigned = {}
+            return
         else:
             d = cfg.save()
             d.addErrback(lambda f: None)
@@ -362,7 +377,7 @@ class RunB(object):
         impl = self.impl
         return (tuple((n, tuple(impl.sim.conf[n])) for n in B_OPTIONS),
                 tuple((n, repr(norm(impl.read(n))), shape(impl.read(n))) for n in B_OPTIONS),
-                tuple(sorted(self.dirty)), impl.cfg.needs_save())
+                tuple(sorted(self.dirty)), impl.cfg.needs_save(), getattr(self, 'refused', False))      # (a refused save is part of the state: what it leaves behind must not matter, which is what is being checked)
 
 
 def run_reassert(name, how):
